@@ -28,7 +28,7 @@ def budget(tier):
 def _case(draw, tier):
     m, t, prss = draw(progs.config(min_m=2, max_m=5 if tier == 'quick' else 7))
     l = draw(st.sampled_from([4, 6, 8, 12]))
-    nodes = draw(progs.int_program(m, l, max_nodes=6 if tier == 'quick' else 12, heavy=False, awaits=True))
+    nodes = draw(progs.int_program(m, l, max_nodes=8 if tier == 'quick' else 12, heavy=False, awaits=True))
     n = 3 if tier == 'quick' else 6
     scheds = [draw(progs.schedule(m)) for _ in range(n)]
     # always at least one PCT schedule that starves one entity for a long stretch
@@ -37,6 +37,11 @@ def _case(draw, tier):
                        changes=[[draw(st.integers(0, 400)), draw(st.integers(0, ne - 1))] for _ in range(draw(st.integers(1, 4)))],
                        chunks=draw(st.lists(st.sampled_from([0, 1, 7, 12, 13]), max_size=3))))
     scheds.append(dict(mode='rand', seed=draw(st.integers(0, 2**32)), chunks=[0, 5]))
+    # message-wise delivery under a random walk and under priorities: single messages overtaken by others
+    scheds.append(dict(mode='rand', seed=draw(st.integers(0, 2**32)), chunks=[-1]))
+    scheds.append(dict(mode='pct', prio=draw(st.permutations(list(range(ne)))),
+                       changes=[[draw(st.integers(0, 300)), draw(st.integers(0, ne - 1))] for _ in range(draw(st.integers(0, 3)))],
+                       chunks=[-1]))
     return dict(m=m, t=t, prss=prss, l=l, seed=draw(st.integers(0, 2**20)), nodes=nodes, scheds=scheds,
                 no_barrier=draw(st.sampled_from([False, False, True])))
 
